@@ -349,7 +349,8 @@ def check_proofs(pid):
     if not files:
         res["errors"].append("missing Props/%s.v" % pid)
         return res
-    rc, out = build_coq([f[:-2] + ".vo" for f in files])
+    # Transfer.vo: the parametricity tie between the proved (real) and the executed (rational) instance
+    rc, out = build_coq([f[:-2] + ".vo" for f in files] + ["Transfer.vo"])
     if rc != 0:
         m = re.search(r'File "([^"]+)", line (\d+)[^\n]*\n(.*?)(?:\nmake|\Z)', out, re.S)
         where = ("%s line %s: %s" % (m.group(1), m.group(2), m.group(3).strip()[:600])) if m else out[-1500:]
